@@ -24,6 +24,9 @@ def run(ctx):
             expl.append(mod.__name__.split(".")[-1])
         finally:
             mod.P = old
+    if ctx.tier == "thorough":
+        from checks import inventory
+        inventory.sweep(ctx, P)
     ctx.assume("induction: a plotfile accepted by the reader grammar and written by any of the four writers is again "
                "accepted; contents per operation as decided by C05/C06/C11/C17")
     return ("Static closure argument: reader grammar = format oracle; every writer's Header / Cell_H grammar matched "
